@@ -1067,8 +1067,18 @@ func (c *Conn) Write(b []byte) (int, error) {
 		return 0, err
 	}
 
-	if !c.handshakeComplete() {
-		return 0, alertInternalError
+	// A renegotiation may have begun since Handshake returned. Handshake
+	// blocks until it is over, so wait for it instead of failing this Write.
+	for !c.handshakeComplete() {
+		c.out.Unlock()
+		err := c.Handshake()
+		c.out.Lock()
+		if err == nil {
+			err = c.out.err
+		}
+		if err != nil {
+			return 0, err
+		}
 	}
 
 	if c.closeNotifySent {
